@@ -168,6 +168,12 @@ func (w *world) settle(smp *sample, actorsDone <-chan struct{}) {
 func runStress(c *core.Case) {
 	r := c.Rand
 	o := sess.Opts{S2S: r.Intn(3) == 0}
+	if c.Index%7 == 3 {
+		// a stream whose content namespace is neither jabber:client nor
+		// jabber:server (XEP-0114 component): replies must be correlated there too
+		o = sess.Opts{Component: true, Local: "comp.example.net", Remote: "example.net"}
+		c.Count("component_stream_histories", 1)
+	}
 	nActors := 1 + r.Intn(6)
 	nReq := 3 + r.Intn(8)
 	if c.Tier == "thorough" {
@@ -203,6 +209,25 @@ func runStress(c *core.Case) {
 				}
 			}
 		}(a)
+	}
+	if c.Index%3 == 1 {
+		// the application moves the close deadline (far into the future) while
+		// requests are waiting: that replaces the session's input context and
+		// must not end anybody's wait
+		dr := core.NewRand(core.SubSeed(c.Seed, "C06", c.Index, "deadline"))
+		wg.Add(1)
+		go func() {
+			defer wg.Done()
+			for k, n := 0, 1+dr.Intn(3); k < n; k++ {
+				for i, m := 0, dr.Intn(400); i < m; i++ {
+					runtime.Gosched()
+				}
+				if err := w.p.S.SetCloseDeadline(time.Now().Add(time.Duration(1+k) * time.Hour)); err != nil {
+					c.Notef("SetCloseDeadline: %v", err)
+				}
+				c.Count("close_deadline_moved_during_waits", 1)
+			}
+		}()
 	}
 	done := make(chan struct{})
 	go func() { wg.Wait(); close(done) }()
@@ -278,7 +303,7 @@ var _ = ctrl.New
 // Prop returns the C06 check.
 func Prop() *core.Prop {
 	req := []string{"stress_histories", "sentinels_answered", "routed_to_caller", "routed_to_handler", "porcupine_partitions",
-		"receipts_acknowledged", "receipts_cancelled", "forced_scenarios", "fast_peer_holds", "fast_peer_answer_processed_while_sender_held", "requests_explicitly_namespaced", "requests_with_empty_id_attribute", "broken_replies_survived", "failed_transmissions_answered_by_peer",
+		"receipts_acknowledged", "receipts_cancelled", "forced_scenarios", "fast_peer_holds", "fast_peer_answer_processed_while_sender_held", "requests_explicitly_namespaced", "requests_with_empty_id_attribute", "component_stream_histories", "close_deadline_moved_during_waits", "broken_replies_survived", "failed_transmissions_answered_by_peer",
 		"muc_wait_cases", "ibb_wait_cases", "C18/join_success", "C18/join_cancelled", "C18/join_room_error_returned", "C18/leave_success", "C18/barriers", "C18/forced_M1_reached",
 		"C15/transfers", "C15/eof_after_close", "C15/refused_opens", "C15/listener_cases"}
 	for _, v := range vias {
